@@ -168,6 +168,28 @@ def main(ctx: Ctx) -> int:
                     obs["err"] = str(e)
             traces.append({"tid": len(traces) + 1, "fmt": fmt, "code": cs["code"], "a": pair(a), "b": pair(b), "c": pair(c), "zb": b == 0, "zc": c == 0, "sh": cs["sh"],
                            "obs": obs, "line": lines[pos], "vals": [a, b, c], "paired": len(grp) > 1})
+    # the table searches of the shielding functions the Leeds photoreaction law calls (H2 / CO / N2 tables selected)
+    try:
+        import re as _re
+        ftab = ctx.sub("in") / "shield.leeds"
+        ftab.write_text("\n".join(encoders.leeds({"r": [m_, "PHOTON"], "p": ["C", "H"], "a": 2.5e-10, "b": 0.0, "c": 2.5, "tmin": 0.0, "tmax": 0.0, "idx": j_ + 1, "code": 4})
+                                   for j_, m_ in enumerate(("H2", "CO", "N2"))) + "\n")
+        nett = Network(filelist=str(ftab), fileformats="leeds", shielding={"H2": "L96Table", "CO": "V09Table", "N2": "L13Table"})
+        outt = ctx.scratch / "r" / "shield"
+        render(nett, "cvode", "dense", outt, templates=["src/naunet_physics.cpp.j2", "src/naunet_constants.cpp.j2", "include/naunet_constants.h.j2"])
+        phys = creader.strip_comments((outt / "src/naunet_physics.cpp").read_text())
+        sizes = {m_.group(1): int(m_.group(2)) for m_ in _re.finditer(r"\b(\w+Table\w*)\s*\[\s*(\d+)\s*\]", creader.strip_comments((outt / "src/naunet_constants.cpp").read_text()))}
+        nsearch = 0
+        for m_ in _re.finditer(r"for\s*\(\s*(\w+)\s*=\s*0\s*;\s*\1\s*<\s*(\d+)\s*;[^)]*\)\s*\{\s*if\s*\([^<]*<\s*(\w+)\s*\[\s*\1\s*\+\s*1\s*\]\s*\)", phys):
+            arr, bound = m_.group(3), int(m_.group(2))
+            if arr in sizes:
+                nsearch += 1
+                traces.append({"tid": len(traces) + 1, "fmt": "table", "code": 0, "a": pair(0.0), "b": pair(0.0), "c": pair(0.0), "zb": True, "zc": True, "sh": "",
+                               "obs": {"refused": False, "valid": True, "tree": ["none"], "expr": "", "err": "", "bound": bound, "nodes": sizes[arr]},
+                               "line": f"search over {arr}[{sizes[arr]}] runs to index < {bound}", "vals": [0.0, 0.0, 0.0], "paired": False})
+        cov["shielding_table_searches_checked"] = nsearch
+    except Exception as e:   # noqa
+        ctx.notes.append(f"shielding table searches could not be read: {type(e).__name__}: {str(e)[:100]}")
     v = validate_traces(ctx, "Trace_RateLaws.tla", "Trace_RateLaws.cfg",
                         [{k: t[k] for k in ("tid", "fmt", "code", "a", "b", "c", "zb", "zc", "sh", "obs")} for t in traces], "laws", chunk=2000)
     cov["traces_validated_against_impl"] = len(traces)
